@@ -181,6 +181,11 @@ func (w *world) connect(i int) {
 		cfg := w.rig.Cfg.P2P
 		params := chaincfg.MainNetParams
 		params.Checkpoints = nil
+		// (the experimental engine takes its checkpoints from the network parameters)
+		for _, id := range w.sc.Checkpoints {
+			h := chainhash.Hash(w.blocks[id].Hash)
+			params.Checkpoints = append(params.Checkpoints, chaincfg.Checkpoint{Height: int32(w.blocks[id].Height), Hash: &h})
+		}
 		p, err := exppeer.NewPeer(svcEnd, n.Initiator, cfg, &params, w.rig.Svc.Headers, w.rig.Svc.Chains, core.Quiet())
 		if err != nil {
 			w.problems = append(w.problems, "NewPeer: "+err.Error())
